@@ -669,8 +669,9 @@ pub fn build_default_config(conf: &crate::config::Config, request: &DHCPRequest)
                 let mut ret = config::Policy {
                     match_subnet: Some(subnet),
                     apply_address: Some(
-                        (1..((1 << (32 - p4.prefixlen)) - 2))
-                            .map(|offset| (u32::from(subnet.network()) + offset).into())
+                        /* Every host address: skip the network (0) and broadcast (last) address. */
+                        (1..((1_u64 << (32 - p4.prefixlen)) - 1))
+                            .map(|offset| (u32::from(subnet.network()) + offset as u32).into())
                             // TODO: This removes one IP from the list, it should also remove any
                             // others found on the local machine.  Probably fine for now, but
                             // likely to cause confusion in the future.
